@@ -363,7 +363,11 @@ class BaseFeatureWriter:
         feaFile = self.context.feaFile
 
         if ast.findTable(feaFile, "GDEF") is not None:
-            return ast.getGDEFGlyphClasses(feaFile)
+            gdefClasses = ast.getGDEFGlyphClasses(feaFile)
+            # a GDEF block without GlyphClassDef statement (e.g. only ligature carets)
+            # gets its glyph classes from the categories, see GdefFeatureWriter
+            if any(c is not None for c in gdefClasses):
+                return gdefClasses
 
         unassigned, bases, ligatures, marks, components = self.getOpenTypeCategories()
 
